@@ -50,6 +50,12 @@ NEEDS = {
  "r3-C14-prefix-check-overwritten": ("C14", "two stored tags and the creation of a third that is prefix-related to one of them; hash-order dependent (about every second run)"),
  "r3-C16-blank-after-captured": ("C16", "a listening tag, a directive captured by it, and a completely empty next line"),
  "r3-C18-overlap-guard-removed": ("C18", "two stored tags whose first occurrences overlap at different offsets on one line"),
+ "r4-C05-zero-counter-guard": ("C05", "a chain a -> b -> c of at least three files whose leaf c is requested directly or found by a scan, and Ok(c) handled before b's dependency report"),
+ "r4-C07-clean-error-continue": ("C07", "clean of a source where a temp directive whose target is already absent (named twice, deleted by hand, shared) is directly followed by another temp directive with a different prefix"),
+ "r4-C12-raw-output-shortcut": ("C12", "an un-indented include/run, not captured by a tag, whose output mixes line endings and whose first terminator equals the source's"),
+ "r4-C13-pending-newline-at-eof": ("C13", "-n and a source that ends with an output-producing directive preceded by a text line"),
+ "r4-C15-empty-remainder-continuation": ("C15", "a continuation candidate that is exactly whitespace + prefix (prefix ending in whitespace) or whitespace + as many spaces as the prefix is long, with an empty remainder"),
+ "r4-C17-guard-needs-existing-file": ("C17", "TXTPP_FILE set to a value that does not name an existing file relative to the new process's working directory (any source below the base directory)"),
 }
 for d in sorted(glob.glob("/verif/seeded/*/")):
     name = os.path.basename(d.rstrip("/"))
@@ -69,7 +75,7 @@ for d in sorted(glob.glob("/verif/seeded/*/")):
             checks[k] = v
     if not checks:
         checks = dict(re.findall(r"check (C\d+) exit (\d+)", txt))
-    prop, needs = NEEDS.get(name, (name[3:6] if name[:3] in ("r2-", "r3-") else name[:3], "see README.md"))
+    prop, needs = NEEDS.get(name, (name[3:6] if name[:3] in ("r2-", "r3-", "r4-") else name[:3], "see README.md"))
     meta = dict(
         name=name, breaks_property=prop, needs_to_manifest=needs,
         origin="written by an independent sub-agent that saw only the property text and a scratch worktree of the repository",
